@@ -33,6 +33,23 @@ def tree(rng, depth, size=32):
         return leaf(rng, size)
     if size != 32:
         k = rng.random()
+        if k < 0.15 and size == 16:
+            # a 16-bit compose made only of adjacent byte slices of one source (merges into one slice that does not cover the source)
+            src = rng.choice(REG_RECIPES + FRESH)
+            st = rng.choice([0, 8, 16])
+            return ['C', [[['S', src, st, st + 8], 0, 8], [['S', src, st + 8, st + 16], 8, 16]]]
+        if k < 0.27 and size == 16:
+            # a narrow operation whose operands denote the same 16 bits, once byte by byte and once directly
+            src = rng.choice(REG_RECIPES + FRESH)
+            st = rng.choice([0, 8, 16])
+            bytewise = ['C', [[['S', src, st, st + 8], 0, 8], [['S', src, st + 8, st + 16], 8, 16]]]
+            direct = ['S', src, st, st + 16]
+            op = rng.choice(['^', '^', '+', '|', '&'])
+            args = [bytewise, ['O', '-', [direct]] if op == '+' else direct]
+            if rng.random() < 0.7:
+                args.append(leaf(rng, 16))
+            rng.shuffle(args)
+            return ['O', op, args]
         if k < 0.6:
             src = tree(rng, depth - 1, 32)
             start = rng.choice([0, 8, 16, 24] if size == 8 else [0, 16])
@@ -55,7 +72,7 @@ def tree(rng, depth, size=32):
                 a = ['O', '+', [a, tree(rng, depth - 2)]]
             nc = rng.choice(['<<', '>>', 'a>>', '<<<', '>>>', '==', '-'])
             args += [['O', nc, [a, b]], ['O', nc, [b, a]]]
-        elif y < 0.36:
+        elif y < 0.34:
             # a register, an identifier that only LOOKS like it (same name and size, not a register), the register again
             r = rng.choice([x for x in REG_RECIPES if x[1] in ('eax', 'ecx', 'init_eax')])
             u = [x for x in LOOKALIKE if x[1] == r[1]][0]
@@ -70,6 +87,14 @@ def tree(rng, depth, size=32):
             c0 = rng.choice(REG_RECIPES + FRESH)
             s1, s2, s3 = r_int(rng.choice(CONSTS)), r_int(rng.choice(CONSTS)), rng.choice(REG_RECIPES)
             args += rng.choice([[['?', c0, s1, s2], ['?', c0, s1, s3]], [['?', c0, s2, s1], ['?', c0, s3, s1]], [['?', c0, s1, s3], ['?', c0, s1, s2]]])
+        elif y < 0.40 and op in ('^', '|', '&', '+'):
+            # the same 16-bit value once as two adjacent byte slices and once as one slice, zero-extended
+            src = rng.choice(REG_RECIPES + FRESH)
+            st = rng.choice([0, 8, 16])
+            bytewise = ['C', [[['S', src, st, st + 8], 0, 8], [['S', src, st + 8, st + 16], 8, 16]]]
+            direct = ['S', src, st, st + 16]
+            z = r_int(0, 16)
+            args += [['C', [[bytewise, 0, 16], [z, 16, 32]]], ['C', [[direct, 0, 16], [z, 16, 32]]]]
         elif y < 0.47:
             # conditions that differ only in the stop of a nested slice (a size-neutral position)
             src = rng.choice(REG_RECIPES + FRESH)
@@ -281,7 +306,7 @@ def workload(seed, n):
         if k < 0.04:
             items.append({'kind': 'symline', 'line': symline(rng)})
         elif k < 0.55:
-            e = tree(rng, rng.choice([1, 2, 3, 3, 4, 5]))
+            e = tree(rng, rng.choice([1, 2, 3, 3, 4, 5]), 16 if rng.random() < 0.08 else 32)
             it = {'kind': 'simp', 'e': e}
             if has_assoc(e):
                 it['variants'] = variants(rng, e)
